@@ -143,6 +143,22 @@ def run(tier, seed):
                 if l % 4 == 0:
                     sc.req("completion", p, l, 4, "comma")
         scs.append(sc)
+    # import chains (C14's generator: helper modules shared by nested conftests, star / explicit / pytest_plugins,
+    # cycles): the offered set must be the visible fixtures whatever file was asked about first
+    from . import c14
+    for i in range(6 if tier == "quick" else 60):
+        files, mods, tests = c14.gen_imports(r.rng)
+        for t in tests:
+            files[t] = "def test_it():\n    pass\n"
+        sc = stdio.StdioCase("i%d" % i, files)
+        order = list(files); r.rng.shuffle(order)
+        for p in order:
+            sc.open(p)
+        asked = list(tests); r.rng.shuffle(asked)
+        for p in asked:
+            sc.req("completion", p, 0, 0)
+            sc.req("completion", p, 1, 0)
+        scs.append(sc)
     res, mcases, msp = stdio.run_all(r, scs)
     nitems = 0
     for (sc, i, step, a, m, k) in res:
